@@ -42,11 +42,12 @@ type Ctx struct {
 	prog *ssa.Program
 	spkg *ssa.Package
 
-	Deep     bool                     // thorough tier: larger folding domains
-	ctorMemo map[*types.Func]int      // wrapperCtor: 0 in progress, 1 yes, 2 no
-	decls    map[string]*ast.FuncDecl // "(*list).Insert", "parseVal"
-	e3       *E3
-	goVers   string
+	Deep      bool                     // thorough tier: larger folding domains
+	AltInline bool                     // second presentation: exported methods called statically on the bare receiver are followed by every rule
+	ctorMemo  map[*types.Func]int      // wrapperCtor: 0 in progress, 1 yes, 2 no
+	decls     map[string]*ast.FuncDecl // "(*list).Insert", "parseVal"
+	e3        *E3
+	goVers    string
 }
 
 // depth picks the folding bound for the tier.
